@@ -208,6 +208,7 @@ func checkC13(c *Ctx) {
 	c13Filters(c)
 	c13Inject(c, reach)
 	c13CtxFuncApplied(c, reach)
+	c15SessionInContext(c) // the request's own session is what middlewares, filters and handlers find in the context
 	dispatchOwnContext(c, "R-own-session")
 }
 
